@@ -265,16 +265,21 @@ func (CodecJSON) Name() string { return "json" }
 type codecHTTPBody struct{}
 
 func (codecHTTPBody) Marshal(v interface{}) ([]byte, error) {
-	panic("not implemented")
+	return nil, errHTTPBodyCodec
 }
 
 func (codecHTTPBody) MarshalAppend(b []byte, v interface{}) ([]byte, error) {
-	panic("not implemented")
+	return nil, errHTTPBodyCodec
 }
 
 func (codecHTTPBody) Unmarshal(data []byte, v interface{}) error {
-	panic("not implemented")
+	return errHTTPBodyCodec
 }
+
+// The codec only frames google.api.HttpBody streams. It can be selected by a
+// request (content-type google.api.HttpBody, application/grpc+body) for other
+// messages: fail the request instead of panicking.
+var errHTTPBodyCodec = fmt.Errorf("body codec only supports google.api.HttpBody")
 
 func (codecHTTPBody) Name() string { return "body" }
 
